@@ -130,6 +130,13 @@ def discrete_models(kind):
         y = lsl.obs(jnp.asarray([0.7, 1.2, 0.6], jnp.float32), lsl.Dist(tfd.Normal, loc=lsl.Calc(lambda z: 0.5 * z, z), scale=0.8),
                     name="y")
         return lsl.GraphBuilder().add(y).build_model(), [2.0, 0.0, 1.0], [2.0, 0.0, 1.0]
+    if kind == "finite_auto_name_clash":
+        # the sampled variable is called "n0" - the name the graph builder gives to the first unnamed node (here the
+        # constant scale of the response)
+        z = lsl.Var(jnp.asarray(1.0), lsl.Dist(tfd.FiniteDiscrete, outcomes=jnp.asarray([1.0, 2.0, 3.0]),
+                                               probs=jnp.asarray([0.1, 0.2, 0.7])), name="n0")
+        y = lsl.obs(jnp.asarray([2.5, 3.5], jnp.float32), lsl.Dist(tfd.Normal, loc=z, scale=1.0), name="y")
+        return lsl.GraphBuilder().add(y).build_model(), None, [1.0, 2.0, 3.0]
     if kind == "finite_via_named_var":
         grid = lsl.Var(jnp.asarray([-1.0, 0.5, 2.0]), name="value_grid")
         z = lsl.Var(jnp.asarray(0.5), lsl.Dist(tfd.FiniteDiscrete, outcomes=grid, probs=jnp.asarray([0.5, 0.3, 0.2])), name="z")
@@ -178,19 +185,23 @@ def discrete_models(kind):
 
 def discrete_events(rng, kind, nkeys=64):
     model, outcomes_arg, outcomes = discrete_models(kind)
-    kernel = gs.finite_discrete_gibbs_kernel("z", model, outcomes=outcomes_arg) if hasattr(gs, "finite_discrete_gibbs_kernel") \
-        else lsl.goose.finite_discrete_gibbs_kernel("z", model, outcomes=outcomes_arg)
+    vname = "n0" if kind == "finite_auto_name_clash" else "z"
+    kernel = gs.finite_discrete_gibbs_kernel(vname, model, outcomes=outcomes_arg) if hasattr(gs, "finite_discrete_gibbs_kernel") \
+        else lsl.goose.finite_discrete_gibbs_kernel(vname, model, outcomes=outcomes_arg)
     interface = gs.LieselInterface(model)
     state = model.state
-    dtype = np.float32 if kind == "finite_int_current" else np.asarray(model.vars["z"].value).dtype
-    logits = [float(interface.log_prob(interface.update_state({"z": jnp.asarray(o, dtype)}, state))) for o in outcomes]
+    dtype = np.float32 if kind == "finite_int_current" else np.asarray(model.vars[vname].value).dtype
+    # the value of the *variable* is read from (and, for the logits, written to) its value node by that node's name
+    vnode = model.vars[vname].value_node.name
+
+    logits = [float(interface.log_prob(interface.update_state({vnode: jnp.asarray(o, dtype)}, state))) for o in outcomes]
     keys = [jax.random.PRNGKey(rng.randrange(1 << 30)) for _ in range(nkeys)]
-    draws = [float(interface.extract_position(["z"], _transition(kernel, interface, k, state))["z"]) for k in keys]
+    draws = [float(st[vnode].value) for st in (_transition(kernel, interface, k, state) for k in keys)]
     replay = [float(outcomes[int(jax.random.categorical(k, jnp.asarray(logits, jnp.float32)))]) for k in keys]
     guard = False
     if draws != replay:
         ks = jax.random.split(jax.random.PRNGKey(rng.randrange(1 << 30)), 4000)
-        f = jax.jit(jax.vmap(lambda k: interface.extract_position(["z"], _transition(kernel, interface, k, state))["z"]))
+        f = jax.jit(jax.vmap(lambda k: _transition(kernel, interface, k, state)[vnode].value))
         d = np.asarray(f(ks), np.float64)
         probs = np.exp(np.asarray(logits) - np.max(logits))
         probs /= probs.sum()
